@@ -292,6 +292,7 @@ func (H) Execute(scAny any, cfg simrt.Config, st *core.Stats) (*simrt.Outcome, *
 		set = &strSet{}
 	}
 	hist := make([][]Rec, 2+len(sc.Clients))
+	cfg.StopWhenClientsDone = true // goroutines of the implementation itself (none on the pinned tree) do not keep a run alive
 	s := simrt.New(cfg)
 	s.Go(func() {
 		for _, o := range sc.Prefix {
@@ -328,7 +329,7 @@ func (H) Execute(scAny any, cfg simrt.Config, st *core.Stats) (*simrt.Outcome, *
 	if out.Truncated {
 		return out, core.NoProgress(out)
 	}
-	if out.Stuck {
+	if core.Deadlocked(out) {
 		return out, &core.Violation{Signature: "deadlock", Detail: "run ended with tasks blocked forever: " + strings.Join(out.StuckTasks, ", ")}
 	}
 	return out, check(sc, hist, st)
